@@ -186,63 +186,23 @@ pub open spec fn sends_only_requests(o: Seq<Ev>, f: Seq<Ev>) -> bool {
 }
 pub open spec fn no_table_add(o: Seq<Ev>, f: Seq<Ev>) -> bool { extends(o, f) && forall|i: int| o.len() <= i < f.len() ==> !(#[trigger] f[i] is TableAdd) }
 pub open spec fn no_yield(o: Seq<Ev>, f: Seq<Ev>) -> bool { extends(o, f) && forall|i: int| o.len() <= i < f.len() ==> !(#[trigger] f[i] is Yield) }
-pub struct TableLookup { pub g: u64 }
-impl TableLookup {
-    // ASSUMED contract (lookup.rs:123-243 is outside Verus' subset): a search only sends queries, yields peers, marks nodes and uses its timeouts
-    #[verifier::external_body]
-    pub fn recv_response(&mut self, node: Node, trans_id: &TransactionID, msg: Response, socket: &Socket, timer: &mut Timer<ScheduledTaskCheck>, Tracked(tr): Tracked<&mut Trace>) -> (r: ActionStatus)
-        requires old(timer).wf()
-        ensures only_requests_and_yields(old(tr).ev, final(tr).ev), no_new_refresh(*old(timer), *final(timer))
-    { unimplemented!() }
-    #[verifier::external_body]
-    pub fn recv_timeout(&mut self, trans_id: &TransactionID, socket: &Socket, timer: &mut Timer<ScheduledTaskCheck>, Tracked(tr): Tracked<&mut Trace>) -> (r: ActionStatus)
-        requires old(timer).wf()
-        ensures only_requests_and_yields(old(tr).ev, final(tr).ev), no_new_refresh(*old(timer), *final(timer))
-    { unimplemented!() }
-    // proved in unit `lookup` (recv_finished sends only announce_peer requests)
-    #[verifier::external_body]
-    pub fn recv_finished(&mut self, port: Option<u16>, socket: &Socket, Tracked(tr): Tracked<&mut Trace>)
-        ensures only_requests_and_yields(old(tr).ev, final(tr).ev)
-    { unimplemented!() }
-    #[verifier::external_body]
-    pub fn completed(&self) -> bool { unimplemented!() }
-    // ASSUMED contract (lookup.rs:66-121): creating a search is the LookupStart event, followed by its first round of queries
-    #[verifier::external_body]
-    pub fn new(target_id: InfoHash, will_announce: bool, tx: mpsc::UnboundedSender<SocketAddr>, id_generator: MIDGenerator,
-               table: Arc<Mutex<RoutingTable>>, socket: &Socket, timer: &mut Timer<ScheduledTaskCheck>, Tracked(tr): Tracked<&mut Trace>) -> (r: TableLookup)
-        requires old(timer).wf()
-        ensures final(tr).ev.len() > old(tr).ev.len(), final(tr).ev[old(tr).ev.len() as int] == Ev::LookupStart(target_id, will_announce),
-            only_requests_and_yields(old(tr).ev.push(Ev::LookupStart(target_id, will_announce)), final(tr).ev),
-            no_new_refresh(*old(timer), *final(timer))
-    { unimplemented!() }
-}
-// tokio::sync::mpsc stand-in (the search result stream)
-pub mod mpsc {
-    pub struct UnboundedSender<T> { pub t: core::marker::PhantomData<T> }
-}
-//@begin type src/action/mod.rs - struct StartLookup
-pub struct StartLookup {
-    pub info_hash: InfoHash,
-    pub announce: bool,
-    pub tx: mpsc::UnboundedSender<SocketAddr>,
-}
-//@end
-// action id generator: stand-in (proved in unit `txid`: successive activities get distinct 5-byte prefixes)
-pub struct AIDGenerator { pub g: u64 }
-impl AIDGenerator {
-    #[verifier::external_body]
-    pub fn generate(&mut self) -> MIDGenerator { unimplemented!() }
-}
-// TRUSTED: std::mem::take leaves Default::default() behind and returns the old value; Vec's default is empty
-pub uninterp spec fn is_default<T>(t: T) -> bool;
-pub assume_specification<T> [std::mem::take] (x: &mut T) -> (r: T) where T: std::default::Default
-    ensures r == *old(x), is_default(*final(x));
-pub broadcast axiom fn vec_default_is_empty<T>(v: Vec<T>) ensures #[trigger] is_default(v) ==> v@.len() == 0;
-
-
 // TRUSTED: derived Hash/Eq on ActionID (a u64) agree
 pub broadcast axiom fn actionid_key_model() ensures #[trigger] obeys_key_model::<ActionID>();
 
+// ---- tokio::sync::mpsc stand-in: the search result stream; every item handed to it is a Yield event
+pub mod mpsc {
+    use super::*;
+    pub struct UnboundedSender<T> { pub t: core::marker::PhantomData<T> }
+    impl UnboundedSender<SocketAddr> {
+        #[verifier::external_body]
+        pub fn send(&self, v: SocketAddr, Tracked(tr): Tracked<&mut Trace>) -> (r: Result<(), ()>)
+            ensures final(tr).ev == old(tr).ev.push(Ev::Yield(v))
+        { unimplemented!() }
+    }
+}
+// TRUSTED: derived Hash/Eq on NodeHandle and TransactionID (plain data) agree
+pub broadcast axiom fn nodehandle_key_model() ensures #[trigger] obeys_key_model::<NodeHandle>();
+pub broadcast axiom fn tid_key_model() ensures #[trigger] obeys_key_model::<TransactionID>();
 // ---- message id generator: stand-in carrying the contract proved in unit `txid` (every id has the generator's 5-byte action prefix)
 pub struct MIDGenerator { pub action_id: u64 }
 impl MIDGenerator {
